@@ -268,6 +268,39 @@ Inv_C10_MembersOnly(DD, o) ==
               SeqContains(EffectiveAt(tb, o.store[k].rr), o.store[k].sigs[j].by)
 
 -----------------------------------------------------------------------------
+(* C09: recorded block signatures and the anchor block (observed store)    *)
+
+StoreEntry(o, idx) == o.store[CHOOSE k \in 1..Len(o.store) : o.store[k].idx = idx]
+HasStoreEntry(o, idx) == \E k \in 1..Len(o.store) : o.store[k].idx = idx
+
+\* every recorded signature verifies against the node's own body of that
+\* block (driver's own ECDSA) and its signer is in the set of the block's round
+Inv_C09_RecordedSigsValid(o) ==
+    LET tb == PSTable(o.ps) IN
+    \A k \in 1..Len(o.store) : \A j \in 1..Len(o.store[k].sigs) :
+        /\ o.store[k].sigs[j].q = "good"
+        /\ SeqContains(EffectiveAt(tb, o.store[k].rr), o.store[k].sigs[j].by)
+
+\* the anchor carries valid signatures of more than a third of the distinct
+\* validators of its round (any signature for a single validator)
+Inv_C09_AnchorTrusted(o) ==
+    LET tb == PSTable(o.ps) IN
+    (o.anchor >= 0 /\ HasStoreEntry(o, o.anchor)) =>
+        LET sb == StoreEntry(o, o.anchor)
+            vs == EffectiveAt(tb, sb.rr)
+            signers == { sb.sigs[j].by : j \in { i \in 1..Len(sb.sigs) : sb.sigs[i].q = "good" /\ SeqContains(vs, sb.sigs[i].by) } }
+        IN  3 * Cardinality(signers) > Len(vs)
+
+Inv_C09_AnchorMonotone(prevAnchor, o) == o.anchor >= prevAnchor
+
+\* a node signs only blocks it has delivered itself
+Inv_C09_SignsOnlyDelivered(me, dvn, o) ==
+    LET delivered == { dvn[i].idx : i \in 1..Len(dvn) } IN
+    /\ SeqToSet(o.selfsigs) \subseteq delivered
+    /\ \A k \in 1..Len(o.store) :
+          (\E j \in 1..Len(o.store[k].sigs) : o.store[k].sigs[j].by = me) => o.store[k].idx \in delivered
+
+-----------------------------------------------------------------------------
 (* Conformance checks: specification result = logged implementation result *)
 
 ConfVals(h, o) ==
@@ -329,7 +362,7 @@ ConfScalars(h, o) ==
     /\ h.lcr = o.lcr /\ h.loaded = o.loaded /\ h.lastBlock = o.lastBlock
     /\ h.lastRound = o.lastRound /\ h.topo = o.topo /\ h.targetRound = o.target
 
-ConfAnchor(h, o) == h.anchor = o.anchor /\ Cardinality(h.sigpool) = o.sigpool
+ConfAnchor(h, o) == h.anchor = o.anchor /\ Cardinality(DOMAIN h.sigpool) = o.sigpool
 
 ConfPS(h, o) ==
     /\ DOMAIN h.ps = { o.ps[k].r : k \in 1..Len(o.ps) }
@@ -382,14 +415,18 @@ TCreateLoop(DD, st, new) ==
                      /\ { DD[e].sigs[k].blk : k \in 1..Len(DD[e].sigs) } = nd.h.selfSigs
                      /\ (DD[e].op = NoEv \/ \E c \in DOMAIN nd.heads : nd.heads[c] = DD[e].op)
                      /\ MayCreate(nd)
-             nd1 == AddSelfEvent(DD, nd, e)
-         IN  TCreateLoop(DD, [ st EXCEPT !.nd = nd1, !.selfok = @ /\ good,
+             \* a crafted event (Byzantine payload) goes through the node's own
+             \* insertEventAndRunConsensus: head and seq move, pools are untouched
+             nd1 == IF st.crafted
+                    THEN [ nd EXCEPT !.h = InsertAndRun(DD, nd.h, e), !.head = e, !.seq = DD[e].i ]
+                    ELSE AddSelfEvent(DD, nd, e)
+         IN  TCreateLoop(DD, [ st EXCEPT !.nd = nd1, !.selfok = @ /\ (good \/ st.crafted),
                                          !.adm = @ /\ Admissible(DD, nd.h, e) ], Tail(new))
 
 TraceSyncResult(DD, nd, x, o) ==
     LET from == x.from
         st0 == [ nd |-> nd, oh |-> NoEv, mis |-> FALSE, aborted |-> FALSE, adm |-> TRUE,
-                 selfok |-> TRUE, skips |-> 0 ]
+                 selfok |-> TRUE, skips |-> 0, crafted |-> "crafted" \in DOMAIN x ]
         st1 == TSyncLoop(DD, st0, from, AsSeq(x.evs), SeqToSet(x.ins))
         hd == st1.nd.heads
         setHead == from # 0 /\ ~o.err /\
@@ -451,7 +488,7 @@ TraceReset ==
            /\ psto' = [ n \in ns |-> << >> ]
            /\ rrv' = [ n \in ns |-> << >> ]
            /\ pools' = [ n \in ns |-> << >> ]
-           /\ last' = [ n \in ns |-> [ lcr |-> -1, ps |-> (0 :> gen) ] ]
+           /\ last' = [ n \in ns |-> [ lcr |-> -1, ps |-> (0 :> gen), anchor |-> -1 ] ]
            /\ cev' = [ n \in ns |-> {} ]
            /\ ctx' = [ n \in ns |-> << >> ]
     /\ lostSet' = {}
@@ -529,6 +566,10 @@ SyncOutcome(n, x, o) ==
                          Inv_C05_NeverDropped(D, nodes1, sub, [ pools EXCEPT ![n] = AsSeq(o.txpool) ], n,
                                               SeqToSet(pools[n]) \cup SeqToSet(o.txpool)))
              \cup Checks("C07", "Inv_C07_OnlyAdmissible", r.adm)
+             \cup Checks("C09", "Inv_C09_RecordedSigsValid", ~hasStore \/ Inv_C09_RecordedSigsValid(o))
+             \cup Checks("C09", "Inv_C09_AnchorTrusted", ~hasStore \/ Inv_C09_AnchorTrusted(o))
+             \cup Checks("C09", "Inv_C09_AnchorMonotone", Inv_C09_AnchorMonotone(last[n].anchor, o))
+             \cup Checks("C09", "Inv_C09_SignsOnlyDelivered", ~hasStore \/ lostNow \/ Inv_C09_SignsOnlyDelivered(nd.h.me, dlv1[n], o))
              \cup Checks("C10", "Inv_C10_HistoryIsReplay", lostNow \/ Inv_C10_HistoryIsReplay(0 :> AsSeq(meta.genesis), dlv1[n], o))
              \cup Checks("C10", "Inv_C10_NoRetroactive", Inv_C10_NoRetroactive(last[n], o))
              \cup Checks("C10", "Inv_C10_SameAcrossNodes", lostNow \/ Inv_C10_SameAcrossNodes(n, o, last, lost1))
@@ -551,7 +592,7 @@ SyncOutcome(n, x, o) ==
              \cup Checks("-", "Conf_SelfEvent", r.selfok /\ r.wantsOK)
              \cup Checks("-", "Conf_FameUnambiguous", ~h1.ambig)
     IN  [ nodes |-> nodes1, dlv |-> dlv1, sto |-> sto1, psto |-> psto1, rrv |-> [ rrv EXCEPT ![n] = rv1 ],
-          last |-> [ last EXCEPT ![n] = [ lcr |-> o.lcr, ps |-> PSTable(o.ps) ] ],
+          last |-> [ last EXCEPT ![n] = [ lcr |-> o.lcr, ps |-> PSTable(o.ps), anchor |-> o.anchor ] ],
           cev |-> [ cev EXCEPT ![n] = @ \cup UNION { SeqToSet(o.blocks[k].evs) : k \in 1..Len(o.blocks) } ],
           ctx |-> [ ctx EXCEPT ![n] = BagAdd(@, NewTxs(o)) ],
           evals |-> IF lostNow THEN evals ELSE valsNew @@ evals, fames |-> IF lostNow THEN fames ELSE fames @@ fameNew, lostSet |-> lost1, pools |-> [ pools EXCEPT ![n] = AsSeq(o.txpool) ],
@@ -735,7 +776,7 @@ TraceNodeUp ==
            /\ psto' = Ext(psto, n, << >>)
            /\ rrv' = Ext(rrv, n, << >>)
            /\ pools' = Ext(pools, n, << >>)
-           /\ last' = Ext(last, n, [ lcr |-> -1, ps |-> (0 :> gen) ])
+           /\ last' = Ext(last, n, [ lcr |-> -1, ps |-> (0 :> gen), anchor |-> -1 ])
            /\ cev' = Ext(cev, n, {})
            /\ ctx' = Ext(ctx, n, << >>)
            /\ lostSet' = lostSet \ {n}
